@@ -195,3 +195,152 @@ Proof.
     rewrite (A4 i Hi), (A4 j Hj), (A1 i Hi), (A1 j Hj), (A2 i j Hi Hj), (A3 i j Hi Hj).
     unfold hr_dSkIl, hr_SkSlI, hr_ISkIl, hr_den, Qdiv. ring.
 Qed.
+
+(* ---------------- pair based ---------------- *)
+Lemma inv0_alt v : (if negb (Qeqb v 0) then 1 / v else 0) = inv0 v.
+Proof. unfold inv0. destruct (Qeqb v 0); reflexivity. Qed.
+Lemma sumQ_single {A} (F : A -> Q) x : sumQ (map F [x]) == F x.
+Proof. cbn [map]. rewrite sumQ_cons, sumQ_nil. ring. Qed.
+
+Section Accum.
+Variables (G : graph) (nodelist : list node) (idx : node -> nat).
+Notation N_ := (nN nodelist).
+Notation nd := (node_at nodelist).
+
+(* what every caller establishes: index_of_node = {node: i for i, node in enumerate(nodelist)} over the nodes of a simple graph *)
+Definition pb_wfb : bool :=
+  Nat.eqb (length (gnodes G)) N_ &&
+  forallb (fun i => Nat.eqb (idx (nd i)) i && nodupb (gadj G (nd i)) &&
+                    forallb (fun v => Nat.ltb (idx v) N_ && N.eqb (nd (idx v)) v) (gadj G (nd i))) (seq 0 N_).
+Lemma pb_wf_spec : pb_wfb = true ->
+  length (gnodes G) = N_ /\
+  forall i, (i < N_)%nat -> idx (nd i) = i /\ nodupb (gadj G (nd i)) = true /\
+    forall v, In v (gadj G (nd i)) -> (idx v < N_)%nat /\ nd (idx v) = v.
+Proof.
+  unfold pb_wfb. intros H. apply andb_prop in H. destruct H as [H0 H]. apply Nat.eqb_eq in H0. split; [exact H0|].
+  intros i Hi. rewrite forallb_forall in H. specialize (H i). rewrite in_seq in H. specialize (H ltac:(lia)).
+  apply andb_prop in H. destruct H as [H12 H3]. apply andb_prop in H12. destruct H12 as [H1 H2]. apply Nat.eqb_eq in H1.
+  repeat split; try assumption; rewrite forallb_forall in H3; specialize (H3 v H); apply andb_prop in H3; destruct H3 as [A B].
+  - apply Nat.ltb_lt. exact A.
+  - apply N.eqb_eq. exact B.
+Qed.
+
+Lemma filter_idx_none (l : list node) b p d :
+  (forall i, (i < length l)%nat -> idx (nth i l d) = (b + i)%nat) -> (p < b)%nat -> filter (fun u => Nat.eqb (idx u) p) l = [].
+Proof.
+  revert b; induction l as [|x l IH]; intros b H Hp; [reflexivity|]. cbn [filter].
+  assert (E : idx x = b) by (rewrite <- (Nat.add_0_r b); apply (H 0%nat); cbn; lia).
+  replace (Nat.eqb (idx x) p) with false by (symmetry; apply Nat.eqb_neq; lia).
+  apply (IH (S b)); [|lia]. intros i Hi. replace (S b + i)%nat with (b + S i)%nat by lia. apply (H (S i)). cbn; lia.
+Qed.
+Lemma filter_idx_one (l : list node) a p d :
+  (forall i, (i < length l)%nat -> idx (nth i l d) = (a + i)%nat) -> (a <= p < a + length l)%nat ->
+  filter (fun u => Nat.eqb (idx u) p) l = [nth (p - a) l d].
+Proof.
+  revert a; induction l as [|x l IH]; intros a H Hp; [cbn in Hp; lia|]. cbn [filter].
+  assert (E : idx x = a) by (rewrite <- (Nat.add_0_r a); apply (H 0%nat); cbn; lia).
+  assert (Ht : forall i, (i < length l)%nat -> idx (nth i l d) = (S a + i)%nat)
+    by (intros i Hi; replace (S a + i)%nat with (a + S i)%nat by lia; apply (H (S i)); cbn; lia).
+  destruct (Nat.eqb_spec (idx x) p) as [Ep|Ep].
+  - rewrite (filter_idx_none l (S a) p d Ht) by lia. replace (p - a)%nat with 0%nat by lia. reflexivity.
+  - rewrite (IH (S a) Ht) by (cbn [length] in Hp; lia). replace (p - a)%nat with (S (p - S a)) by lia. reflexivity.
+Qed.
+Lemma filter_nodelist p : pb_wfb = true -> (p < N_)%nat -> filter (fun u => Nat.eqb (idx u) p) nodelist = [nd p].
+Proof.
+  intros W Hp. destruct (pb_wf_spec W) as [_ H].
+  rewrite (filter_idx_one nodelist 0 p 0%N); [rewrite Nat.sub_0_r; reflexivity| |unfold nN in Hp; lia].
+  intros i Hi. apply (H i). exact Hi.
+Qed.
+Lemma filter_adj (l : list node) q :
+  nodupb l = true -> (forall v, In v l -> nd (idx v) = v) -> idx (nd q) = q ->
+  filter (fun v => Nat.eqb (idx v) q) l = if mem (nd q) l then [nd q] else [].
+Proof.
+  intros Hn Hv Hq. induction l as [|x l IH]; [reflexivity|].
+  cbn [nodupb] in Hn. apply andb_prop in Hn. destruct Hn as [Hx Hn]. apply negb_true_iff in Hx.
+  assert (IH' := IH Hn (fun v Hin => Hv v (or_intror Hin))). cbn [filter]. rewrite mem_cons.
+  destruct (Nat.eqb_spec (idx x) q) as [E|E].
+  - assert (Ex : x = nd q) by (rewrite <- E; symmetry; apply Hv; left; reflexivity).
+    rewrite IH'. rewrite <- Ex, Hx, N.eqb_refl. reflexivity.
+  - assert (Ex : N.eqb (nd q) x = false) by (apply N.eqb_neq; intro C; apply E; rewrite <- C; exact Hq).
+    rewrite Ex. cbn [orb]. exact IH'.
+Qed.
+End Accum.
+
+Section PairBasedGen.
+Variables (G : graph) (nodelist : list node) (idx : node -> nat) (tr : node -> node -> Q) (rc : node -> Q).
+Notation N_ := (nN nodelist).
+Notation nd := (node_at nodelist).
+Hypothesis W : pb_wfb G nodelist idx = true.
+
+Lemma wf_idx p : (p < N_)%nat -> idx (nd p) = p.
+Proof. intros Hp. destruct (pb_wf_spec _ _ _ W) as [_ H]. apply (H p Hp). Qed.
+Lemma wf_nbr p v : (p < N_)%nat -> In v (gadj G (nd p)) -> (idx v < N_)%nat.
+Proof. intros Hp Hv. destruct (pb_wf_spec _ _ _ W) as [_ H]. destruct (H p Hp) as [_ [_ H3]]. apply (H3 v Hv). Qed.
+Lemma wf_filter_adj p q : (p < N_)%nat -> (q < N_)%nat ->
+  filter (fun v => Nat.eqb (idx v) q) (gadj G (nd p)) = if is_edge G nodelist p q then [nd q] else [].
+Proof.
+  intros Hp Hq. destruct (pb_wf_spec _ _ _ W) as [_ H]. destruct (H p Hp) as [_ [H2 H3]].
+  unfold is_edge. apply filter_adj; [exact H2|intros v Hv; apply (H3 v Hv)|apply wf_idx; exact Hq].
+Qed.
+
+Theorem gen_dSIR_pair_based V t :
+  veq (g_dSIR_pair_based V t G nodelist idx tr rc) (dSIR_pair_based G nodelist idx tr rc V t).
+Proof.
+  destruct (pb_wf_spec _ _ _ W) as [LG _].
+  unfold g_dSIR_pair_based, dSIR_pair_based. cbv zeta. rewrite LG. set (N := N_) in *.
+  set (Xs := slice 0 N V). set (Ys := slice N (2 * N) V).
+  set (XYs := slice (2 * N) (2 * N + N * N) V). set (XXs := slice_from (2 * N + N * N) V).
+  assert (AX : forall i, (i < N)%nat -> vnth i Xs = prX V i) by (intros i Hi; unfold Xs, prX; rewrite vnth_slice by lia; reflexivity).
+  assert (AY : forall i, (i < N)%nat -> vnth i Ys = prY nodelist V i) by (intros i Hi; unfold Ys, prY; rewrite vnth_slice by lia; reflexivity).
+  assert (AXY : forall i j, (i < N)%nat -> (j < N)%nat -> vnth (i * N + j) XYs = prXY nodelist V i j).
+  { intros i j Hi Hj. unfold XYs, prXY. fold N. rewrite vnth_slice by nia. f_equal. lia. }
+  assert (AXX : forall i j, vnth (i * N + j) XXs = prXX nodelist V i j).
+  { intros i j. unfold XXs, prXX. fold N. rewrite vnth_slice_from. f_equal. lia. }
+  assert (AI : forall i, (i < N)%nat -> (fun v_v => if negb (Qeqb v_v 0) then 1 / v_v else 0) (vnth i Xs) = inv0 (prX V i))
+    by (intros i Hi; cbv beta; rewrite inv0_alt, AX by exact Hi; reflexivity).
+  (* the sum over the neighbours of u = nd p of tr u v * XY[p, idx v] *)
+  assert (SXY : forall p, (p < N)%nat ->
+     sumQ (map (fun v => tr (nd p) v * vnth (p * N + idx v) XYs) (gadj G (nd p)))
+     == sumQ (map (fun v => tr (nd p) v * prXY nodelist V p (idx v)) (gadj G (nd p)))).
+  { intros p Hp. apply sum_map_ext. intros v Hv. rewrite AXY by (try exact Hp; apply (wf_nbr p v Hp Hv)). reflexivity. }
+  apply veq_app; [|apply veq_app; [|apply veq_app]].
+  - (* dX *)
+    apply veq_tab. intros p Hp. cbv beta. rewrite (filter_nodelist _ _ _ p W Hp), sumQ_single. cbv zeta. rewrite (wf_idx p Hp).
+    unfold pbSIR_dX. cbv zeta. apply sum_map_ext. intros v Hv. rewrite AXY by (try exact Hp; apply (wf_nbr p v Hp Hv)). reflexivity.
+  - (* dY *)
+    apply veq_tab. intros p Hp. cbv beta. rewrite (filter_nodelist _ _ _ p W Hp), sumQ_single. cbv zeta. rewrite (wf_idx p Hp).
+    unfold pbSIR_dY. cbv zeta. rewrite (AY p Hp), (SXY p Hp). reflexivity.
+  - (* dXY *)
+    apply veq_tab2. intros p q Hp Hq. cbv beta. rewrite (filter_nodelist _ _ _ p W Hp), sumQ_single. cbv zeta.
+    rewrite (wf_idx p Hp), (wf_filter_adj p q Hp Hq). unfold pbSIR_dXY. cbv zeta.
+    destruct (is_edge G nodelist p q) eqn:He; [|reflexivity].
+    rewrite sumQ_single. cbv zeta. rewrite (wf_idx q Hq), (AXY p q Hp Hq).
+    assert (T1 : sumQ (map (fun w => tr (nd q) w * vnth (p * N + q) XXs * vnth (q * N + idx w) XYs * (fun v_v => if negb (Qeqb v_v 0) then 1 / v_v else 0) (vnth q Xs))
+                           (filter (fun w => negb (N.eqb w (nd p))) (gadj G (nd q))))
+                 == triples_in G nodelist idx tr (fun k => inv0 (prX V k)) (prXY nodelist V) (prXX nodelist V) p q).
+    { unfold triples_in, others. cbv zeta. apply sum_map_ext. intros w Hw. apply filter_In in Hw. destruct Hw as [Hw _].
+      rewrite AXX, (AI q Hq), AXY by (try exact Hq; apply (wf_nbr q w Hq Hw)). reflexivity. }
+    assert (T2 : sumQ (map (fun w => - tr (nd p) w * vnth (p * N + idx w) XYs * prXY nodelist V p q * (fun v_v => if negb (Qeqb v_v 0) then 1 / v_v else 0) (vnth p Xs))
+                           (filter (fun w => negb (N.eqb w (nd q))) (gadj G (nd p))))
+                 == - triples_out G nodelist idx tr (fun k => inv0 (prX V k)) (prXY nodelist V) (prXY nodelist V) p q).
+    { unfold triples_out, others. cbv zeta. rewrite <- sum_map_opp. apply sum_map_ext. intros w Hw. apply filter_In in Hw. destruct Hw as [Hw _].
+      rewrite (AI p Hp), AXY by (try exact Hp; apply (wf_nbr p w Hp Hw)). ring. }
+    rewrite T1, T2. ring.
+  - (* dXX *)
+    apply veq_tab2. intros p q Hp Hq. cbv beta. rewrite (filter_nodelist _ _ _ p W Hp), sumQ_single. cbv zeta.
+    rewrite (wf_idx p Hp), (wf_filter_adj p q Hp Hq). unfold pbSIR_dXX. cbv zeta.
+    destruct (is_edge G nodelist p q) eqn:He; [|reflexivity].
+    rewrite sumQ_single. cbv zeta. rewrite (wf_idx q Hq).
+    assert (T1 : sumQ (map (fun w => - tr (nd q) w * vnth (p * N + q) XXs * vnth (q * N + idx w) XYs * (fun v_v => if negb (Qeqb v_v 0) then 1 / v_v else 0) (vnth q Xs))
+                           (filter (fun w => negb (N.eqb w (nd p))) (gadj G (nd q))))
+                 == - triples_in G nodelist idx tr (fun k => inv0 (prX V k)) (prXY nodelist V) (prXX nodelist V) p q).
+    { unfold triples_in, others. cbv zeta. rewrite <- sum_map_opp. apply sum_map_ext. intros w Hw. apply filter_In in Hw. destruct Hw as [Hw _].
+      rewrite AXX, (AI q Hq), AXY by (try exact Hq; apply (wf_nbr q w Hq Hw)). ring. }
+    assert (T2 : sumQ (map (fun w => - tr (nd p) w * vnth (p * N + idx w) XYs * vnth (p * N + q) XXs * (fun v_v => if negb (Qeqb v_v 0) then 1 / v_v else 0) (vnth p Xs))
+                           (filter (fun w => negb (N.eqb w (nd q))) (gadj G (nd p))))
+                 == - triples_out G nodelist idx tr (fun k => inv0 (prX V k)) (prXY nodelist V) (prXX nodelist V) p q).
+    { unfold triples_out, others. cbv zeta. rewrite <- sum_map_opp. apply sum_map_ext. intros w Hw. apply filter_In in Hw. destruct Hw as [Hw _].
+      rewrite AXX, (AI p Hp), AXY by (try exact Hp; apply (wf_nbr p w Hp Hw)). ring. }
+    rewrite T1, T2. ring.
+Qed.
+End PairBasedGen.
